@@ -39,6 +39,30 @@ def norm_query(pairs):
     return sorted(out, key=lambda x: x[0])
 
 
+def weights():
+    import re
+    txt = (common.COQ / "Gen" / "GMeta.v").read_text()
+    w = {}
+    for name in ("W_POS_MATCH", "W_NEG_MATCH", "W_UNDEFINED", "W_EXTRA"):
+        m = re.search(r"Definition %s : Z := \(?(-?\d+)\)?\." % name, txt)
+        w[name] = int(m.group(1)) if m else None
+    return w
+
+
+def zero_score_shapes(w):
+    """(matching features incl. the default unicode-range, query features the table does not define, table features the
+    query does not mention) whose weights cancel exactly: the boundary between `found' and `not found'"""
+    out = []
+    if None in w.values():
+        return out
+    for np_ in range(1, 5):
+        for nu in range(0, 4):
+            for ne in range(0, 4):
+                if nu + ne and np_ * w["W_POS_MATCH"] + nu * w["W_UNDEFINED"] + ne * w["W_EXTRA"] == 0:
+                    out.append((np_, nu, ne))
+    return out
+
+
 def run(chk):
     rng = Rng(chk.seed).fork(PID)
     gen = common.gen_stage()
@@ -88,6 +112,27 @@ def run(chk):
                 q = [("type", "a")]
             r.shuffle(q)
             queries.append((" ".join("%s:%s" % kv for kv in q), q))
+        # aimed at the boundary: a query whose score against table 0 is exactly 0 (the weights REGENERATED from the source
+        # cancel), and one point to either side
+        shapes = zero_score_shapes(weights())
+        if shapes and si % 3 == 0:
+            np_, nu, ne = r.choice(shapes)
+            ks = [k for k in KEYS if k != "unicode-range"]
+            r.shuffle(ks)
+            if np_ - 1 + nu + ne <= len(ks):
+                mk, uk, ek = ks[:np_ - 1], ks[np_ - 1:np_ - 1 + nu], ks[np_ - 1 + nu:np_ - 1 + nu + ne]
+                feats0 = [(k, r.choice(VALS)) for k in mk + ek]
+                if not feats0:
+                    feats0 = [(ks[-1], r.choice(VALS))]
+                p0 = work / ("s%d_t0.utb" % si)
+                p0.write_text("".join("#+%s:%s\n" % kv for kv in feats0) + "space \\s 0\n")
+                tabs[0] = (str(p0), feats0 if feats0 else [])
+                zq = [(k, v) for k, v in feats0 if k in mk] + [(k, r.choice(VALS)) for k in uk]
+                if zq:
+                    queries.append((" ".join("%s:%s" % kv for kv in zq), zq))
+                    chk.tally("aimed_zero_score_queries")
+                    if len(zq) > 1 and uk:
+                        queries.append((" ".join("%s:%s" % kv for kv in zq[:-1]), zq[:-1]))
         # the exact metadata of table 0 (one value per key)
         ex = []
         for k, v in tabs[0][1]:
@@ -133,6 +178,13 @@ def run(chk):
                 chk.tally("queries_malformed" if q is None else "queries_with_match" if mone.strip() != "-" else "queries_no_match")
                 if q is not None and q is queries[-2][1] and exact_ok and mone.strip() == "-":
                     chk.violation("exact-not-found", "query equal to a table's metadata found nothing", dict(query=qs, tables=dict(tabs)))
+                # the clauses of the property evaluated directly on what the library returned
+                ione, _, iall = c[2:].partition("|")
+                ione, iall = ione.strip(), iall.split()
+                if (ione == "-") != (not iall) or (ione != "-" and ione not in iall):
+                    chk.violation("find-vs-findTables", "lou_findTable returned %r but lou_findTables returned %r: a table is returned "
+                                  "exactly when some table scores positive, and it is one of those listed" % (ione, iall),
+                                  dict(query=qs, tables_given_order=[(p, f) for p, f in given], impl=c))
                 if c.strip() == exp.strip():
                     chk.cov["traces_validated_against_impl"] += 1
                     if nontriv:
